@@ -42,7 +42,6 @@ MISSES = {
 
 
 REVERT_NOTES = {
-    '6900bb3': 'its symptom (a store node overwritten by deltas of a duplicate proxy that is not the pooled one) carries the same mechanism key as the recorded C25 finding, so the known-finding classification hides it: keys by mechanism cannot tell call sites of one mechanism apart',
     '4dba221': 'needs a family proxy whose pruned child is re-visited by the family ascent; found once, by a thorough run',
 }
 
